@@ -104,7 +104,7 @@ var ScalarVias = []string{
 	"zero", "one", "minusone", "random", "invert", "pow", "square", "set-nil", "mul-nil", "pow-nil", "decode-rejected",
 	"random-high", "random-retry",
 	"add-self", "sub-self", "mul-self", "set-self", "cselect-self", "pow-self", "add-to-zero", "add-to-one", "sub-equal", "decode-rejected-range",
-	"unmarshal-rejected-range", "decodehex-rejected-range", "lessorequal-nil-recovered", "random-fault-recovered", "copy-then-change-copy", "set-then-change-source",
+	"unmarshal-rejected-range", "decodehex-rejected-range", "lessorequal-nil-recovered", "random-fault-recovered", "copy-then-change-copy", "set-then-change-source", "copy-from-then-change-source",
 }
 
 // PlanScalarMove draws a transition through the given mutator.
@@ -159,7 +159,7 @@ func PlanScalarMove(via string, r *gen.Rng) ScalarMove {
 		"setuint64": true, "zero": true, "one": true, "minusone": true, "random": true, "random-high": true, "random-retry": true, "set-nil": true, "mul-nil": true, "pow-nil": true,
 		"decode-rejected": true, "square": true, "add-self": true, "sub-self": true, "mul-self": true, "set-self": true, "cselect-self": true, "pow-self": true, "add-to-zero": true,
 		"add-to-one": true, "sub-equal": true, "decode-rejected-range": true, "unmarshal-rejected-range": true, "decodehex-rejected-range": true, "lessorequal-nil-recovered": true,
-		"random-fault-recovered": true, "copy-then-change-copy": true, "set-then-change-source": true}
+		"random-fault-recovered": true, "copy-then-change-copy": true, "set-then-change-source": true, "copy-from-then-change-source": true}
 
 	if free[via] {
 		switch r.Intn(6) {
@@ -196,7 +196,7 @@ func PlanScalarMove(via string, r *gen.Rng) ScalarMove {
 		to = new(big.Int)
 	case "add-to-one":
 		to = big.NewInt(1)
-	case "set-self", "cselect-self", "lessorequal-nil-recovered", "random-fault-recovered", "copy-then-change-copy", "set-then-change-source", "decode-rejected":
+	case "set-self", "cselect-self", "lessorequal-nil-recovered", "random-fault-recovered", "copy-then-change-copy", "set-then-change-source", "copy-from-then-change-source", "decode-rejected":
 		to = from
 	case "pow-self":
 		to = new(big.Int).Exp(from, from, n)
@@ -256,9 +256,13 @@ func ApplyScalarMove(s *secp256k1.Scalar, mv ScalarMove) {
 	case "set":
 		s.Set(Scal(to))
 	case "decode":
-		must(s.Decode(oracle.Bytes32(to)))
+		buf := oracle.Bytes32(to)
+		must(s.Decode(buf))
+		scribble(buf) // the caller reuses its buffer: the scalar must not have kept it
 	case "unmarshal":
-		must(s.UnmarshalBinary(oracle.Bytes32(to)))
+		buf := oracle.Bytes32(to)
+		must(s.UnmarshalBinary(buf))
+		scribble(buf)
 	case "decodehex":
 		must(s.DecodeHex(H(oracle.Bytes32(to))))
 	case "cselect0":
@@ -363,18 +367,68 @@ func ApplyScalarMove(s *secp256k1.Scalar, mv ScalarMove) {
 			_, _ = Call(func() { s.Random() })
 		}()
 	case "copy-then-change-copy":
+		_, _ = s.Bits(), s.Encode()
 		c := s.Copy()
 		c.Add(Scal(aux)).Square().Invert()
 		_, _ = c.Encode(), c.Bits()
 	case "set-then-change-source":
 		src := Scal(from)
+		_, _ = src.Bits(), src.Encode()
 		s.Set(src)
 		src.MinusOne().Square()
-		_ = src.Encode()
+		_, _ = src.Encode(), src.Bits()
+	case "copy-from-then-change-source":
+		src := Scal(from)
+		_, _ = src.Bits(), src.Encode()
+		*s = *src.Copy() // the object under test IS the copy (a plain struct assignment of it, as callers do with value types)
+		src.MinusOne().Square()
+		_, _ = src.Encode(), src.Bits()
 	default:
 		panic("harness: unknown scalar move " + mv.Via)
 	}
 }
+
+// scribble overwrites a buffer the harness handed to a decoder (what a caller does when it reuses the buffer).
+func scribble(b []byte) {
+	for i := range b {
+		b[i] ^= 0xa5
+	}
+}
+
+// PlanScalarMoveFrom is PlanScalarMove with the start value chosen by the caller (for the mutators that leave it free;
+// the object then starts from written limbs).
+func PlanScalarMoveFrom(via string, r *gen.Rng, from *big.Int) ScalarMove {
+	n := oracle.N
+	mv := PlanScalarMove(via, r)
+	mv.FromVia = ""
+	mv.From = fmt.Sprintf("%x", from)
+
+	var to *big.Int
+
+	switch via {
+	case "square", "mul-self":
+		to = oracle.Mod(new(big.Int).Mul(from, from), n)
+	case "add-self":
+		to = oracle.Mod(new(big.Int).Lsh(from, 1), n)
+	case "sub-self", "sub-equal", "add-to-zero":
+		to = new(big.Int)
+	case "add-to-one":
+		to = big.NewInt(1)
+	case "set-self", "cselect-self", "copy-then-change-copy", "set-then-change-source", "lessorequal-nil-recovered", "random-fault-recovered", "decode-rejected":
+		to = from
+	case "pow-self":
+		to = new(big.Int).Exp(from, from, n)
+	default:
+		panic("harness: PlanScalarMoveFrom does not support " + via)
+	}
+
+	mv.To = fmt.Sprintf("%x", to)
+
+	return mv
+}
+
+// SelfVias are the scalar moves in which the object is its own argument or meets an equal / opposite value.
+var SelfVias = []string{"add-self", "sub-self", "mul-self", "set-self", "cselect-self", "sub-equal", "add-to-zero", "square"}
 
 // ElemMove is a JSON-serialisable transition of one *Element object.
 type ElemMove struct {
@@ -404,6 +458,7 @@ func (mv ElemMove) Start() *secp256k1.Element {
 var ElemVias = []string{
 	"set", "decode", "decodeC", "decodeU", "decodeU-any", "unmarshal", "decodehex", "coords", "identity", "base", "negate", "add", "sub",
 	"double", "mul-small", "mul-n-1", "mul-1", "mul-0", "mul-nil", "add-nil", "sub-nil", "decode-identity", "decode-rejected", "sub-self", "add-self",
+	"arg-of-panicking-call", "copy-then-change-copy", "set-then-change-source",
 }
 
 // PlanElemMove draws a transition through the given mutator.
@@ -467,7 +522,7 @@ func PlanElemMoveFrom(via string, r *gen.Rng, natFrom int) ElemMove {
 	case "mul-1":
 		mv.K = "1"
 		to = from.P
-	case "add-nil", "sub-nil":
+	case "add-nil", "sub-nil", "arg-of-panicking-call", "copy-then-change-copy", "set-then-change-source":
 		to = from.P
 	case "decode-rejected":
 		to = from.P
@@ -500,15 +555,25 @@ func ApplyElemMove(e *secp256k1.Element, mv ElemMove) {
 	case "set":
 		e.Set(mv.Aux.Build())
 	case "decode":
-		must(e.Decode(oracle.EncC(to)))
+		buf := oracle.EncC(to)
+		must(e.Decode(buf))
+		scribble(buf) // the caller reuses its buffer: the element must not have kept it
 	case "decodeC":
-		must(e.DecodeCompressed(oracle.EncC(to)))
+		buf := oracle.EncC(to)
+		must(e.DecodeCompressed(buf))
+		scribble(buf)
 	case "decodeU":
-		must(e.DecodeUncompressed(oracle.EncU(to)))
+		buf := oracle.EncU(to)
+		must(e.DecodeUncompressed(buf))
+		scribble(buf)
 	case "decodeU-any":
-		must(e.Decode(oracle.EncU(to)))
+		buf := oracle.EncU(to)
+		must(e.Decode(buf))
+		scribble(buf)
 	case "unmarshal":
-		must(e.UnmarshalBinary(oracle.EncC(to)))
+		buf := oracle.EncC(to)
+		must(e.UnmarshalBinary(buf))
+		scribble(buf)
 	case "decodehex":
 		must(e.DecodeHex(H(oracle.EncC(to))))
 	case "coords":
@@ -541,6 +606,26 @@ func ApplyElemMove(e *secp256k1.Element, mv ElemMove) {
 		e.Subtract(nil).Subtract(NilElem)
 	case "decode-identity":
 		must(e.Decode([]byte{0}))
+	case "arg-of-panicking-call":
+		// the object is the ARGUMENT of calls that panic (a nil receiver) and are recovered by the caller: whatever the call
+		// did to its argument on the way must have been undone
+		_, _ = Call(func() { NilElem.Subtract(e) })
+		_, _ = Call(func() { NilElem.Add(e) })
+		_, _ = Call(func() { NilElem.Set(e) })
+		_, _ = Call(func() { _ = NilElem.Equal(e) })
+	case "copy-then-change-copy":
+		_ = e.Encode()
+		cp := e.Copy()
+		cp.Double().Negate().Add(mv.Aux.Build())
+		_, _ = cp.Encode(), cp.EncodeUncompressed()
+	case "set-then-change-source":
+		src := mv.From.Build()
+		_, _ = src.Encode(), src.EncodeUncompressed()
+		e.Set(src)
+		src.Negate()
+		_ = src.Encode()
+		src.Double().Add(mv.Aux.Build())
+		_, _ = src.Encode(), src.EncodeUncompressed()
 	case "decode-rejected":
 		bad := oracle.EncC(mv.Aux.P.Pt())
 		bad[0] = 5
@@ -713,6 +798,9 @@ func Noise(r *gen.Rng) {
 			_, _ = Call(func() { NilScal.Random() })
 			_, _ = Call(func() { _ = NilScal.Encode() })
 			_, _ = Call(func() { k.LessOrEqual(nil) })
+			_, _ = Call(func() { secp256k1.SSWU(nil) })
+			_, _ = Call(func() { secp256k1.IsogenySecp256k13iso(nil) })
+			_, _ = Call(func() { secp256k1.Secp256Polynomial(nil, nil) })
 		default:
 			// the documented mistake, recovered from
 			_, _ = Call(func() { secp256k1.HashToGroup([]byte("x"), nil) })
